@@ -666,12 +666,12 @@ func TestVerif_C16_Decode(t *testing.T) {
 
 func TestVerif_C16_MultiSelect(t *testing.T) {
 	rec := stats.Get("C16", "multiselect")
-	rec.Rule("rapid: MultiSelect over a table of width 1..127 distinct elements, bits 0..width (and width+1..255 sometimes), fallback element and fallbackCond = (bits != 0) as the callers pass it; oracle: result = table[bits-1] for 1<=bits<=width, fallback for bits=0; Select/cond via big.Int. Non-trivial: bits in {0,1,width} or width in {1,127}; distinct by (width,bits,seed).")
+	rec.Rule("rapid: MultiSelect over a table of width 1..255 distinct elements (the selector is a byte), bits 0..width (and width+1..255 sometimes), fallback element and fallbackCond = (bits != 0) as the callers pass it; oracle: result = table[bits-1] for 1<=bits<=width, fallback for bits=0; Select/cond via big.Int. Non-trivial: bits in {0,1,width} or width in {1,127,255}; distinct by (width,bits,seed).")
 	t.Cleanup(stats.FlushAll)
 	rapid.Check(t, func(t *rapid.T) {
-		width := gen.Int(t, "width", 1, 127)
+		width := gen.Int(t, "width", 1, 255)
 		if gen.Int(t, "edgeW", 0, 5) == 0 {
-			width = rapid.SampledFrom([]int{1, 15, 31, 63, 127}).Draw(t, "w")
+			width = rapid.SampledFrom([]int{1, 15, 31, 63, 64, 65, 127, 128, 129, 255}).Draw(t, "w")
 		}
 		bits := gen.Int(t, "bits", 0, width)
 		if gen.Int(t, "edgeB", 0, 3) == 0 {
